@@ -19,6 +19,7 @@ def run(ctx):
     r = tlc.run("FakeTrxMC.tla", ctx.pick("MC_FakeTrxFlowQ.cfg", "MC_FakeTrxFlow.cfg"), workers=8, timeout=3000)
     ctx.require_ok("MC FakeTrxMC flow mode (arrivals, ticks across the wrap, POWEROFF/POWERON, SETFORMAT, FAKE_DROP, RFMUTE)", r)
     traces = [FC.traffic_session(ctx, "s%d" % k, ID) for k in range(ctx.pick(110, 5000))]
+    traces += [FC.restart_replay_session(ctx, "r%d" % k) for k in range(ctx.pick(25, 600))]
     nd = FC.traffic_stats(ctx, traces)
     FC.validate(ctx, traces, (ID + ".",) + (), "TV FakeTrxTrace (%s traffic sessions on the real Application)" % ID, discr)
     t0 = traces[0]
